@@ -247,61 +247,8 @@ pub fn run_c09(run: &Run) {
     }
     let l = large(4 + run.seed * 1000);
     run.sample(json!({"type": "large", "index": 4 + run.seed * 1000, "statements": l.labels.len(), "shape": l.shape, "text_prefix": l.text(None, ("", "", "")).chars().take(300).collect::<String>()}));
-    // ---- programs at scale (exact validation against an independent reference BDD, see refbdd.rs)
-    // (a) z = OR_i (x_i & y_i) with all x declared before all y: the diagram of z has 2^(m+1) nodes
-    // (b) a ladder of 300 statements: variable indices beyond 255 occur in conditions
-    let mut big: Vec<(String, Vec<String>, Vec<Fm>, Vec<u8>, bool)> = vec![];
-    for m in if quick { vec![10usize, 16] } else { vec![10, 14, 16, 17] } {
-        let n = 2 * m + 1;
-        let mut labels: Vec<String> = (0..m).map(|i| format!("x{}", i)).collect();
-        labels.extend((0..m).map(|i| format!("y{}", i)));
-        labels.push("z".into());
-        let mut conds: Vec<Fm> = (0..2 * m).map(Fm::Atom).collect();
-        let mut f = Fm::bin(0, Fm::Atom(0), Fm::Atom(m));
-        for i in 1..m {
-            f = Fm::bin(1, f, Fm::bin(0, Fm::Atom(i), Fm::Atom(m + i)));
-        }
-        conds.push(f);
-        // native compilation of the widest instances takes minutes (the documented weakness of the naive algorithm):
-        // they are validated through the bridge only
-        big.push((format!("OR of {} products, bad order ({} statements)", m, n), labels, conds, vec![U; n], m <= 10));
-    }
-    {
-        let n = 300usize;
-        let labels: Vec<String> = (0..n).map(|i| format!("n{}", i)).collect();
-        let mut conds = vec![];
-        for i in 0..n {
-            let (p, q, r) = (Fm::Atom((i + n - 1) % n), Fm::Atom((i + 7) % n), Fm::Atom((i + 150) % n));
-            conds.push(match i % 5 {
-                0 => Fm::bin(0, p, Fm::bin(1, q, Fm::not(r))),
-                1 => Fm::bin(4, q, r),
-                2 => Fm::bin(2, r, Fm::bin(3, p, q)),
-                3 => Fm::not(Fm::bin(1, p, r)),
-                _ => Fm::bin(1, Fm::bin(0, p.clone(), q), Fm::bin(0, Fm::not(p), r)),
-            });
-        }
-        let l = LargeAdf { labels: labels.clone(), written: labels.clone(), conds: conds.clone(), shape: "ladder300" };
-        let g = l.grounded();
-        big.push(("ladder of 300 statements".into(), labels, conds, g, true));
-    }
-    let res = run.par_family(
-        &format!("programs at scale: {} (exact comparison with a reference BDD)", big.len()),
-        big.len() as u64,
-        || 0u64,
-        |st, k| {
-            let (name, labels, conds, g, native) = &big[k as usize];
-            let l = LargeAdf { labels: labels.clone(), written: labels.clone(), conds: conds.clone(), shape: "big" };
-            let text = l.text(None, ("\n", "", ""));
-            *st += 1;
-            run.heartbeat();
-            for (kind, msg) in program_case_sel(labels, conds, &text, 0, g, *native) {
-                run.violation(&kind, format!("{} on program '{}'", msg, name), json!({"type": "big", "index": k}));
-            }
-        },
-        &|k| json!({"type": "big", "index": k}),
-    );
-    for st in res {
-        run.add_counts(st, st * 4, st, st);
+    for (kind, msg) in scale_programs(run) {
+        run.violation(&kind, msg, json!({"type": "big"}));
     }
     // (c) labels whose concatenation with the separators of the syntax is ambiguous: two different conditions that
     // read alike once quotes are dropped, e.g. and("a,b",c) and and(a,"b,c")
@@ -386,8 +333,74 @@ pub fn run_c09(run: &Run) {
     run.extra("transitions_are", json!("compiled objects validated (program x pipeline)"));
 }
 
+/// programs at scale (exact validation against an independent reference BDD, see refbdd.rs); returns the findings
+pub fn scale_programs(run: &Run) -> Vec<(String, String)> {
+    let quick = run.quick();
+    let found: std::sync::Mutex<Vec<(String, String)>> = std::sync::Mutex::new(vec![]);
+    // (a) z = OR_i (x_i & y_i) with all x declared before all y: the diagram of z has 2^(m+1) nodes
+    // (b) a ladder of 300 statements: variable indices beyond 255 occur in conditions
+    let mut big: Vec<(String, Vec<String>, Vec<Fm>, Vec<u8>, bool)> = vec![];
+    for m in if quick { vec![10usize, 16] } else { vec![10, 14, 16, 17] } {
+        let n = 2 * m + 1;
+        let mut labels: Vec<String> = (0..m).map(|i| format!("x{}", i)).collect();
+        labels.extend((0..m).map(|i| format!("y{}", i)));
+        labels.push("z".into());
+        let mut conds: Vec<Fm> = (0..2 * m).map(Fm::Atom).collect();
+        let mut f = Fm::bin(0, Fm::Atom(0), Fm::Atom(m));
+        for i in 1..m {
+            f = Fm::bin(1, f, Fm::bin(0, Fm::Atom(i), Fm::Atom(m + i)));
+        }
+        conds.push(f);
+        // native compilation of the widest instances takes minutes (the documented weakness of the naive algorithm):
+        // they are validated through the bridge only
+        big.push((format!("OR of {} products, bad order ({} statements)", m, n), labels, conds, vec![U; n], m <= 10));
+    }
+    {
+        let n = 300usize;
+        let labels: Vec<String> = (0..n).map(|i| format!("n{}", i)).collect();
+        let mut conds = vec![];
+        for i in 0..n {
+            let (p, q, r) = (Fm::Atom((i + n - 1) % n), Fm::Atom((i + 7) % n), Fm::Atom((i + 150) % n));
+            conds.push(match i % 5 {
+                0 => Fm::bin(0, p, Fm::bin(1, q, Fm::not(r))),
+                1 => Fm::bin(4, q, r),
+                2 => Fm::bin(2, r, Fm::bin(3, p, q)),
+                3 => Fm::not(Fm::bin(1, p, r)),
+                _ => Fm::bin(1, Fm::bin(0, p.clone(), q), Fm::bin(0, Fm::not(p), r)),
+            });
+        }
+        let l = LargeAdf { labels: labels.clone(), written: labels.clone(), conds: conds.clone(), shape: "ladder300" };
+        let g = l.grounded();
+        big.push(("ladder of 300 statements".into(), labels, conds, g, true));
+    }
+    let res = run.par_family(
+        &format!("programs at scale: {} (exact comparison with a reference BDD)", big.len()),
+        big.len() as u64,
+        || 0u64,
+        |st, k| {
+            let (name, labels, conds, g, native) = &big[k as usize];
+            let l = LargeAdf { labels: labels.clone(), written: labels.clone(), conds: conds.clone(), shape: "big" };
+            let text = l.text(None, ("\n", "", ""));
+            *st += 1;
+            run.heartbeat();
+            for (kind, msg) in program_case_sel(labels, conds, &text, 0, g, *native) {
+                found.lock().unwrap().push((kind, format!("{} on program '{}'", msg, name)));
+            }
+        },
+        &|k| json!({"type": "big", "index": k}),
+    );
+    for st in res {
+        run.add_counts(st, st * 4, st, st);
+    }
+    found.into_inner().unwrap()
+}
+
 pub fn replay(c: &Value) -> Vec<(String, String)> {
     let sorting = c["sorting"].as_u64().unwrap_or(0) as usize;
+    if c["type"] == "big" {
+        let run = Run::new("C09", Tier::Quick, 0);
+        return scale_programs(&run);
+    }
     if c["type"] == "large" {
         let l = large(c["index"].as_u64().unwrap_or(0));
         let text = l.text(None, ("\n", "", " "));
